@@ -480,3 +480,58 @@ def replay_concrete(job: Job, model: dict):
         err = f"{type(e).__name__}: {e}"
     return dict(inputs={k: repr(v) for k, v in c.used.items()}, failed=[list(x) for x in O.failed],
                 passed=len(O.passed), covers=sorted(O.covers), error=err)
+
+
+class SamplingCtx(ConcreteCtx):
+    """Concrete context for the witness search: inputs come from the verifier's counter-model or are drawn at random."""
+
+    NICE = (0, 1, -1, 2, 0.5, 0.25, 3, 10, 0.1, 100, -0.5, -2)
+
+    def __init__(self, model, rng, p_keep):
+        super().__init__(model)
+        self.rng = rng
+        self.p_keep = p_keep
+        self.drawn = {}
+
+    def real(self, name, pytype='float', is_input=True, relax=False):
+        if name in self.drawn:
+            self.model[name] = self.drawn[name]
+        elif not (name in self.model and self.rng.random() < self.p_keep):
+            r = self.rng
+            if name.endswith("#fac"):
+                v = 10.0 ** r.uniform(-9, 9)                 # mkq takes the real unit whose factor is nearest
+            elif pytype == 'int':
+                v = r.choice((1, 2, 3, 5, 10, 12, 17, 20, 30, 50, 80, 100, 0, -1, r.randint(1, 150)))
+            else:
+                k = r.random()
+                v = (r.choice(self.NICE) if k < 0.3 else round(r.uniform(0, 1), 3) if k < 0.5 else round(r.uniform(0, 100), 2) if k < 0.7
+                     else round(10.0 ** r.uniform(-4, 4), 6) if k < 0.9 else -round(10.0 ** r.uniform(-3, 3), 4))
+            self.model[name] = self.drawn[name] = repr(v)
+        return super().real(name, pytype, is_input, relax)
+
+    def boolean(self, name, is_input=True):
+        if name not in self.drawn and not (name in self.model and self.rng.random() < self.p_keep):
+            self.model[name] = self.drawn[name] = str(self.rng.random() < 0.5)
+        return super().boolean(name, is_input)
+
+
+def search_witness(job: Job, base_model: dict, clause: str, trials=400, seed=0):
+    """BOUNDED random search (replay aid only, never a verdict): after the verifier refuted `clause`, look for native inputs
+    of the same job on which the real code fails the same clause.  -> (model, replay output, trials used) | None"""
+    import random
+    rng = random.Random(seed)
+    for t in range(trials):
+        c = SamplingCtx(dict(base_model or {}), rng, 0.8 if t < trials // 3 else 0.4 if t < 2 * trials // 3 else 0.0)
+        O = ConcreteCollector(c)
+        err = None
+        try:
+            job.body(c, O)
+        except PathEnd:
+            pass
+        except Exception as e:           # noqa: BLE001
+            err = f"{type(e).__name__}: {e}"
+        if clause in [x for x, _ in O.failed]:
+            out = dict(inputs={k: repr(v) for k, v in c.used.items()}, failed=[list(x) for x in O.failed],
+                       passed=len(O.passed), covers=sorted(O.covers), error=err)
+            return {k: v for k, v in c.model.items() if k in c.used}, out, t + 1
+    return None
